@@ -233,7 +233,39 @@ def match_prefix_variants(rule):
     return [x for x in out if x != rule]
 
 
-SPECIAL_EDITS = ("respell", "match_prefix", "respell_key", "tagged_spelling", "add_member", "insert_empty")
+SPECIAL_EDITS = ("respell", "match_prefix", "respell_key", "tagged_spelling", "add_member", "insert_empty", "time_shift")
+
+
+def time_shifts(v):
+    """a point in time moved by a calendar unit (same notation): another point in time"""
+    import re
+    m = re.fullmatch(r"(\d{4})-(\d{2})-(\d{2})T(\d{2}):(\d{2}):(\d{2})Z", v)
+    if not m:
+        return []
+    y, mo, d, h, mi, sec = (int(x) for x in m.groups())
+    out = []
+    for dy in (1, -1, 10):
+        if 1 <= y + dy <= 9999 and not (mo == 2 and d == 29):
+            out.append("%04d-%02d-%02dT%02d:%02d:%02dZ" % (y + dy, mo, d, h, mi, sec))
+    out.append("%04d-%02d-%02dT%02d:%02d:%02dZ" % (y, mo % 12 + 1, min(d, 28), h, mi, sec))
+    out.append("%04d-%02d-%02dT%02d:%02d:%02dZ" % (y, mo, d % 28 + 1, h, mi, sec))
+    out.append("%04d-%02d-%02dT%02d:%02d:%02dZ" % (y, mo, d, (h + 12) % 24, mi, sec))
+    return [x for x in out if x != v]
+
+
+def year_edge_instants(first=2027, last=2060):
+    """days around New Year whose ISO week-numbering year equals that of the same day one calendar year later or
+    earlier (a date written with the week-numbering year would not tell them apart), all in the future"""
+    out = []
+    for y in range(first, last):
+        for mo, d in ((12, 29), (12, 30), (12, 31), (1, 1), (1, 2), (1, 3)):
+            a = datetime.date(y, mo, d)
+            for dy in (1, -1):
+                b = datetime.date(y + dy, mo, d)
+                if b.year >= first and a.isocalendar()[0] == b.isocalendar()[0]:
+                    out.append("%04d-%02d-%02dT00:00:00Z" % (y, mo, d))
+                    break
+    return sorted(set(out))
 
 
 def single_edits(signed, rng, limit=None):
@@ -254,6 +286,8 @@ def single_edits(signed, rng, limit=None):
                 edits.append((path, "set", v - 1))
         elif isinstance(v, str):
             edits.append((path, "set", mutate_string(v, rng)))
+            for alt in time_shifts(v):
+                edits.append((path, "time_shift", alt))
             for alt in respellings(v):
                 edits.append((path, "respell", alt))
             if path[-1] in ("scheme", "keytype"):
@@ -311,7 +345,7 @@ def single_edits(signed, rng, limit=None):
     for path, kind, arg in edits:
         d = copy.deepcopy(signed)
         try:
-            if kind in ("set", "respell", "match_prefix", "tagged_spelling"):
+            if kind in ("set", "respell", "match_prefix", "tagged_spelling", "time_shift"):
                 set_at(d, path, arg)
             elif kind == "add_member":
                 get_at(d, path)[arg[0]] = copy.deepcopy(arg[1])
